@@ -94,7 +94,7 @@ class SeriesP:
     def field(self, which, key, fld):
         k = (which, key, fld)
         if k not in self.fields:
-            nm = f"{self.name}.{which}[{keyname(key)}].{fld}"
+            nm = f"{self.name}.{which}[{keyname(key)}]/{fld}"  # "/": never the name of the whole-value array
             arr = IntArr(nm, V)
             for (w, kk, idx, val) in self.log:
                 if w == which and kk == key:
@@ -210,7 +210,7 @@ class SeriesP:
         self.maps[(which, key)] = [z3.Store(P, jt, z3.Bool(nm + ".h")), z3.Store(W, jt, z3.Const(nm + ".w", V))]
         for (w, kk, fld), arr in list(self.fields.items()):
             if w == which and kk == key:
-                self.fields[(w, kk, fld)] = z3.Store(arr, jt, z3.Const(f"{nm}.{fld}", V))
+                self.fields[(w, kk, fld)] = z3.Store(arr, jt, z3.Const(f"{nm}/{fld}", V))
         self.log.append((which, key, jt, _Havoc(nm)))
         self.gen += 1
 
@@ -219,7 +219,7 @@ class SeriesP:
         self.maps[(which, key)] = [IntArr(nm + ".has", z3.BoolSort()), IntArr(nm + ".val", V)]
         for (w, kk, fld) in list(self.fields):
             if w == which and kk == key:
-                self.fields[(w, kk, fld)] = IntArr(f"{nm}.{fld}", V)
+                self.fields[(w, kk, fld)] = IntArr(f"{nm}/{fld}", V)
         self.log = [e for e in self.log if not (e[0] == which and e[1] == key)]
         self.gen += 1
 
@@ -232,7 +232,7 @@ class _Havoc(dict):
         self.nm = nm
 
     def get(self, fld, default=None):
-        return z3.Const(f"{self.nm}.{fld}", V)
+        return z3.Const(f"{self.nm}/{fld}", V)
 
 
 class CandleAt:
